@@ -1,16 +1,197 @@
 (* C09 property theorems: statements only, each closed by `exact`, pinned by `Check`. *)
-From Coq Require Import NArith Bool List.
+From Coq Require Import NArith Bool List Arith.
 From Common Require Import Bits.
 From Gen Require Import GcHeader.
-From C09 Require Import GcModel HeaderRefine.
-Local Open Scope N_scope.
+From C09 Require Import GcModel HeaderRefine Spec_C09 Mark_C09 Fin_C09 Step_C09 Collect_C09 Witness_C09 Hist_C09 Weak_C09.
+Import ListNotations.
 
-(* header bit layout (regenerated from gc_header.rs): mark / unmark keep the count bits *)
-Theorem header_mark_preserves_count : forall m c, c < 2 ^ 31 ->
+(* ---------------------------------------------------------------------------------------------- *)
+(* 1. header bit layout (regenerated from gc_header.rs on every run) *)
+
+(* mark / unmark keep the count bits *)
+Theorem header_mark_preserves_count : forall m c, (c < 2 ^ 31)%N ->
   gh_non_root_count (gh_mark (word m c)) = c /\ gh_is_marked (gh_mark (word m c)) = true /\
   gh_non_root_count (gh_unmark (word m c)) = c /\ gh_is_marked (gh_unmark (word m c)) = false.
 Proof. exact header_mark_preserves_count_lemma. Qed.
-Check header_mark_preserves_count : forall m c, c < 2 ^ 31 ->
+Check header_mark_preserves_count : forall m c, (c < 2 ^ 31)%N ->
   gh_non_root_count (gh_mark (word m c)) = c /\ gh_is_marked (gh_mark (word m c)) = true /\
   gh_non_root_count (gh_unmark (word m c)) = c /\ gh_is_marked (gh_unmark (word m c)) = false.
 Print Assumptions header_mark_preserves_count.
+
+(* inc_non_root_count (saturating at ref_count) and reset keep the mark bit; is_rooted reads the count *)
+Theorem header_inc_reset_preserve_mark : forall m c rc, (c < 2 ^ 31)%N -> (rc <= gh_NON_ROOTS_MAX)%N ->
+  gh_is_marked (gh_inc_non_root_count rc (word m c)) = m /\
+  gh_non_root_count (gh_inc_non_root_count rc (word m c)) = (if (c <? rc)%N then (c + 1)%N else c) /\
+  gh_is_marked (gh_reset_non_root_count (word m c)) = m /\
+  gh_non_root_count (gh_reset_non_root_count (word m c)) = 0%N /\
+  gh_is_rooted rc (word m c) = (c <? rc)%N.
+Proof. exact header_inc_reset_preserve_mark_lemma. Qed.
+Check header_inc_reset_preserve_mark : forall m c rc, (c < 2 ^ 31)%N -> (rc <= gh_NON_ROOTS_MAX)%N ->
+  gh_is_marked (gh_inc_non_root_count rc (word m c)) = m /\
+  gh_non_root_count (gh_inc_non_root_count rc (word m c)) = (if (c <? rc)%N then (c + 1)%N else c) /\
+  gh_is_marked (gh_reset_non_root_count (word m c)) = m /\
+  gh_non_root_count (gh_reset_non_root_count (word m c)) = 0%N /\
+  gh_is_rooted rc (word m c) = (c <? rc)%N.
+Print Assumptions header_inc_reset_preserve_mark.
+
+(* every 32-bit header word is (mark, count) for a unique pair: the model's separate tables lose nothing *)
+Theorem header_every_word : forall w, (w < 2 ^ 32)%N -> exists m c, (c < 2 ^ 31)%N /\ w = word m c.
+Proof. exact every_word. Qed.
+Check header_every_word : forall w, (w < 2 ^ 32)%N -> exists m c, (c < 2 ^ 31)%N /\ w = word m c.
+Print Assumptions header_every_word.
+
+(* ---------------------------------------------------------------------------------------------- *)
+(* 2. representation invariant: ref_count = number of handles, no dangling handle *)
+
+Theorem rc_inv_step : forall s o,
+  o <> Collect -> Inv s -> poisoned s = false ->
+  Inv (fst (step s o)) /\ poisoned (fst (step s o)) = false.
+Proof. exact step_inv. Qed.
+Check rc_inv_step : forall s o,
+  o <> Collect -> Inv s -> poisoned s = false ->
+  Inv (fst (step s o)) /\ poisoned (fst (step s o)) = false.
+Print Assumptions rc_inv_step.
+
+(* trace_non_roots + is_rooted decide "held from outside the heap" exactly *)
+Theorem is_rooted_exact : forall s, Inv s ->
+  rootedS_ok s (nrc_tab_s (strongs s) (weaks s)) /\ rootedE_ok s (nrc_tab_e (strongs s) (weaks s)).
+Proof. exact (fun s I => conj (rootedS_ok_tab s I) (rootedE_ok_tab s I)). Qed.
+Check is_rooted_exact : forall s, Inv s ->
+  rootedS_ok s (nrc_tab_s (strongs s) (weaks s)) /\ rootedE_ok s (nrc_tab_e (strongs s) (weaks s)).
+Print Assumptions is_rooted_exact.
+
+(* ---------------------------------------------------------------------------------------------- *)
+(* 3. marking = abstract reachability (worklist, ephemeron fix-point, weak-map pass; fuel proved sufficient) *)
+
+Theorem mark_exact : forall s tabS tabE ms me dead pend,
+  Inv s -> rootedS_ok s tabS -> rootedE_ok s tabE ->
+  mark_heap (strongs s) (weaks s) (wmaps s) tabS tabE [] [] = (ms, me, dead, pend) ->
+  (forall n, memb n ms = true <-> Reach s n) /\
+  (forall e, memb e me = true <-> ReachE s e) /\
+  dead = filter (fun n => negb (memb n ms)) (ids_s (strongs s)) /\
+  pend = filter (fun x => negb (fst (eph_trace x ms me))) (weaks s).
+Proof. exact mark_heap_exact. Qed.
+Check mark_exact : forall s tabS tabE ms me dead pend,
+  Inv s -> rootedS_ok s tabS -> rootedE_ok s tabE ->
+  mark_heap (strongs s) (weaks s) (wmaps s) tabS tabE [] [] = (ms, me, dead, pend) ->
+  (forall n, memb n ms = true <-> Reach s n) /\
+  (forall e, memb e me = true <-> ReachE s e) /\
+  dead = filter (fun n => negb (memb n ms)) (ids_s (strongs s)) /\
+  pend = filter (fun x => negb (fst (eph_trace x ms me))) (weaks s).
+Print Assumptions mark_exact.
+
+(* ---------------------------------------------------------------------------------------------- *)
+(* 4. a collection frees exactly the unreachable objects, exactly once, and re-establishes the invariant
+      (hypothesis: the finalizers of the unreachable boxes do not resurrect) *)
+
+Theorem collect_exact : forall s s' g,
+  Inv s -> poisoned s = false -> dead_no_res s -> collect s = (s', g) ->
+  Inv s' /\ poisoned s' = false /\
+  (forall n, In n (ids_s (strongs s')) <-> In n (ids_s (strongs s)) /\ Reach s n) /\
+  (forall e, In e (ids_e (weaks s')) <-> In e (ids_e (weaks s)) /\ ReachE s e) /\
+  (forall n, In n (g_drop g) <-> is_node (strongs s) n = true /\ ~ Reach s n) /\
+  g_fin g = g_drop g /\ NoDup (g_drop g) /\ g_res g = [] /\ g_held g = [] /\
+  ext_s s' = ext_s s /\ ext_e s' = ext_e s /\ next_s s' = next_s s /\ next_e s' = next_e s.
+Proof. exact collect_exact_lemma. Qed.
+Check collect_exact : forall s s' g,
+  Inv s -> poisoned s = false -> dead_no_res s -> collect s = (s', g) ->
+  Inv s' /\ poisoned s' = false /\
+  (forall n, In n (ids_s (strongs s')) <-> In n (ids_s (strongs s)) /\ Reach s n) /\
+  (forall e, In e (ids_e (weaks s')) <-> In e (ids_e (weaks s)) /\ ReachE s e) /\
+  (forall n, In n (g_drop g) <-> is_node (strongs s) n = true /\ ~ Reach s n) /\
+  g_fin g = g_drop g /\ NoDup (g_drop g) /\ g_res g = [] /\ g_held g = [] /\
+  ext_s s' = ext_s s /\ ext_e s' = ext_e s /\ next_s s' = next_s s /\ next_e s' = next_e s.
+Print Assumptions collect_exact.
+
+(* what survives keeps its payload; a weak pointer / ephemeron loses its data in a collection exactly when
+   its key is unreachable at that collection (so upgrade() answers Some iff the target is still live, and an
+   ephemeron's value is kept only while its key is: Reach has no other rule that reaches a value) *)
+Theorem weak_cleared_iff_key_dead : forall s s' g,
+  Inv s -> poisoned s = false -> dead_no_res s -> collect s = (s', g) ->
+  (forall n b', find_s n (strongs s') = Some b' ->
+     exists b, find_s n (strongs s) = Some b /\ s_kids b' = s_kids b /\ s_fin b' = s_fin b /\ s_map b' = s_map b /\
+       (s_ephs b' = s_ephs b \/ s_ephs b' = filter (has_data (weaks s')) (s_ephs b))) /\
+  (forall e x', find_e e (weaks s') = Some x' ->
+     exists x, find_e e (weaks s) = Some x /\
+       (e_data x' = e_data x \/ (e_data x' = None /\ exists k v, e_data x = Some (k, v) /\ ~ Reach s k))) /\
+  incl (wmaps s') (wmaps s) /\ colls s' <= S (colls s).
+Proof. exact collect_frame_lemma. Qed.
+Check weak_cleared_iff_key_dead : forall s s' g,
+  Inv s -> poisoned s = false -> dead_no_res s -> collect s = (s', g) ->
+  (forall n b', find_s n (strongs s') = Some b' ->
+     exists b, find_s n (strongs s) = Some b /\ s_kids b' = s_kids b /\ s_fin b' = s_fin b /\ s_map b' = s_map b /\
+       (s_ephs b' = s_ephs b \/ s_ephs b' = filter (has_data (weaks s')) (s_ephs b))) /\
+  (forall e x', find_e e (weaks s') = Some x' ->
+     exists x, find_e e (weaks s) = Some x /\
+       (e_data x' = e_data x \/ (e_data x' = None /\ exists k v, e_data x = Some (k, v) /\ ~ Reach s k))) /\
+  incl (wmaps s') (wmaps s) /\ colls s' <= S (colls s).
+Print Assumptions weak_cleared_iff_key_dead.
+
+(* ---------------------------------------------------------------------------------------------- *)
+(* 5. the hypothesis of 4 is necessary: with a finalizer that resurrects, the faithful model frees a node
+      that is held by an external handle (finding 1 of design.d/C09.md; the witness is the replay
+      `new 1; link 0 0; drop 0; gc`, coq/C09/Witness_C09.v).  The state before the collection satisfies the invariant. *)
+
+Theorem collect_safe_with_resurrection_refuted :
+  exists ops, Inv (exec init ops) /\ poisoned (exec init ops) = false /\
+    g_held (snd (collect (exec init ops))) = [0%N] /\
+    g_drop (snd (collect (exec init ops))) = [0%N] /\
+    In 0%N (ext_s (fst (collect (exec init ops)))).
+Proof. exact resurrection_refuted_lemma. Qed.
+Check collect_safe_with_resurrection_refuted :
+  exists ops, Inv (exec init ops) /\ poisoned (exec init ops) = false /\
+    g_held (snd (collect (exec init ops))) = [0%N] /\
+    g_drop (snd (collect (exec init ops))) = [0%N] /\
+    In 0%N (ext_s (fst (collect (exec init ops)))).
+Print Assumptions collect_safe_with_resurrection_refuted.
+
+(* ---------------------------------------------------------------------------------------------- *)
+(* 6. lifted over arbitrary operation histories (no resurrecting finalizer allocated) *)
+
+(* the invariant holds and boa has not panicked after any history *)
+Theorem rc_inv : forall ops, Forall op_no_res ops ->
+  Inv (exec init ops) /\ poisoned (exec init ops) = false /\ no_res (exec init ops).
+Proof. exact exec_inv. Qed.
+Check rc_inv : forall ops, Forall op_no_res ops ->
+  Inv (exec init ops) /\ poisoned (exec init ops) = false /\ no_res (exec init ops).
+Print Assumptions rc_inv.
+
+(* over a whole history nothing is dropped twice, and the Finalize calls are exactly the drops *)
+Theorem freed_exactly_once : forall ops, Forall op_no_res ops ->
+  NoDup (drop_log (snd (run init ops))) /\ fin_log (snd (run init ops)) = drop_log (snd (run init ops)).
+Proof. exact freed_once. Qed.
+Check freed_exactly_once : forall ops, Forall op_no_res ops ->
+  NoDup (drop_log (snd (run init ops))) /\ fin_log (snd (run init ops)) = drop_log (snd (run init ops)).
+Print Assumptions freed_exactly_once.
+
+(* at any point of any history a collection finalizes / drops only what is unreachable at that point *)
+Theorem collect_safe : forall ops1 g, Forall op_no_res ops1 ->
+  let s := exec init ops1 in
+  forall s', collect s = (s', g) -> forall n, In n (g_drop g) \/ In n (g_fin g) -> ~ Reach s n.
+Proof. exact never_freed_while_reachable. Qed.
+Check collect_safe : forall ops1 g, Forall op_no_res ops1 ->
+  let s := exec init ops1 in
+  forall s', collect s = (s', g) -> forall n, In n (g_drop g) \/ In n (g_fin g) -> ~ Reach s n.
+Print Assumptions collect_safe.
+
+(* weak observations only hand out live targets: after any history, upgrade() / key() = Some k means k is in the
+   heap, value() = Some v means v and the key are in the heap *)
+Theorem upgrade_some_live : forall ops e k,
+  Forall op_no_res ops -> let s := exec init ops in
+  snd (step s (Upgrade e)) = OSome k -> In k (ids_s (strongs s)).
+Proof. exact upgrade_some_live_lemma. Qed.
+Check upgrade_some_live : forall ops e k,
+  Forall op_no_res ops -> let s := exec init ops in
+  snd (step s (Upgrade e)) = OSome k -> In k (ids_s (strongs s)).
+Print Assumptions upgrade_some_live.
+
+Theorem ephemeron_value_some_live : forall ops e v,
+  Forall op_no_res ops -> let s := exec init ops in
+  snd (step s (EphValue e)) = OSome v ->
+  In v (ids_s (strongs s)) /\ exists k, data_of s e = Some (k, Some v) /\ In k (ids_s (strongs s)).
+Proof. exact value_some_live_lemma. Qed.
+Check ephemeron_value_some_live : forall ops e v,
+  Forall op_no_res ops -> let s := exec init ops in
+  snd (step s (EphValue e)) = OSome v ->
+  In v (ids_s (strongs s)) /\ exists k, data_of s e = Some (k, Some v) /\ In k (ids_s (strongs s)).
+Print Assumptions ephemeron_value_some_live.
